@@ -10,7 +10,8 @@ LEVEL = "exploration"
 N = {"quick": 200, "thorough": 3000}
 RULE = ("Generated library pairs (1-5 changes); each of `abidw A`, `abidw --load-all-types --annotate B`, `abidiff A B`, "
         "`abidiff --leaf-changes-only --impacted-interfaces A B`, `abidiff --harmless --redundant A B` and `abipkgdiff "
-        "dirA dirB` (directories holding 3 libraries each) is run 4 times under different environments: ASLR on / off "
+        "dirA dirB` (directories holding 5 libraries each, three of them changed and of exactly equal size; 2 / 4 / 3 / 8 worker "
+        "threads with a perturbed schedule through the LIBABIGAIL_VERIF hooks) is run 4 times under different environments: ASLR on / off "
         "(setarch -R), MALLOC_PERTURB_ unset / 85 / 170, MALLOC_ARENA_MAX=1, working directory = case directory or /. "
         "Inputs are always named by the same absolute paths. Oracle: byte-identical stdout and equal exit status across the "
         "four runs. Non-trivial = output of at least 1 kB; distinct by SHA-1 of (case, command).")
@@ -25,6 +26,7 @@ ENVS = [({}, False, "case"), ({"MALLOC_PERTURB_": "85"}, True, "/"), ({"MALLOC_P
 def strategy_(draw, tier):
     c = draw(multi.multi_pair(tier, lo=1, hi=5))
     c["third"] = draw(S.library(lang="c", max_types=4, max_funcs=3))
+    c["yield_seed"] = draw(st.integers(1, 10 ** 6))
     return c
 
 
@@ -35,12 +37,14 @@ def strategy(tier):
 def run_case(case, cx):
     m, m2, cfg = case["model"], case["mutant"], case["cfg"]
     d, b1, b2 = pairs.build_pair(cx, m, m2, cfg, nodebug_tus=tuple(case["nodebug"]), sonames=case.get("sonames"))
-    # two package directories: libA (changed), libB (unchanged third library), libC (only in the first)
+    # two package directories: libA (changed), libB (unchanged third library), libC (only in the first), libD and libE (same
+    # content as libA: changed binaries of exactly equal size)
     try:
         p1, p2 = d + "/pkg1", d + "/pkg2"
         os.makedirs(p1), os.makedirs(p2)
         b3 = cbuild.compile_model(case["third"], cfg, d + "/third")
-        for src, dst in ((b1, p1 + "/libA.so"), (b2, p2 + "/libA.so"), (b3, p1 + "/libB.so"), (b3, p2 + "/libB.so"), (b3, p1 + "/libC.so")):
+        for src, dst in ((b1, p1 + "/libA.so"), (b2, p2 + "/libA.so"), (b3, p1 + "/libB.so"), (b3, p2 + "/libB.so"), (b3, p1 + "/libC.so"),
+                         (b1, p1 + "/libD.so"), (b2, p2 + "/libD.so"), (b1, p1 + "/libE.so"), (b2, p2 + "/libE.so")):
             os.link(src, dst)
     except cbuild.CompileError as e:
         raise Inconclusive(str(e))
@@ -52,6 +56,9 @@ def run_case(case, cx):
     for tool, args in cmds:
         runs = []
         for env, noaslr, cwd in ENVS:
+            if tool == "abipkgdiff":
+                # the comparisons run on worker threads: also vary their number and perturb their schedule (hooks)
+                env = dict(env, VERIF_NUM_WORKERS=str([2, 4, 3, 8][len(runs)]), VERIF_YIELD_SEED=str(case.get("yield_seed", 7) + len(runs)))
             r = cbuild.tool(tool, args, env=env, cwd=(d if cwd == "case" else "/"),
                             wrapper=(["setarch", "x86_64", "-R"] if noaslr else []))
             if r.timeout:
